@@ -1,1 +1,132 @@
-import Abmarl.Spec.Managers
+import Abmarl.Props.C01
+/-!
+# C07 — Managers schedule turns fairly and an unfinished episode can always progress
+
+* `C07_fair_turns_and_progress` — for every simulation satisfying `WF`, every manager kind and
+  every history, the model's trace satisfies `specC07`.
+* `C07_every_call_returns` — the turn search of the turn-based manager never exhausts a
+  rotation in any reachable state: the model never yields `exhausted` (the real code's
+  `for next_agent in cycle(...)` therefore terminates wherever it corresponds to the model),
+  and no model call ever yields `crash` or `hang`.
+* `c07_*` read `specC07` back as the clauses of the property.
+-/
+namespace Abmarl
+variable {σ α ω ι : Type}
+
+/-- **C07** for every simulation, manager kind and history. -/
+theorem C07_fair_turns_and_progress [DecidableEq α] (S : SimIface σ α ω ι) (k : MKind)
+    (hW : WF S k) (m0 : MState σ) (ops : List (Op α)) :
+    specC07 k S.n S.learning (runOps S k m0 ops) = true :=
+  (runOps_sound hW ops m0 {} (by intro h; simp at h)).2
+
+/-- every manager call made under the caller protocol returns normally or with the documented
+rejection — in particular the turn search never runs out (`exhausted`), for any history. -/
+theorem C07_every_call_returns [DecidableEq α] (S : SimIface σ α ω ι) (k : MKind)
+    (hW : WF S k) (m0 : MState σ) (ops : List (Op α)) (i : Nat) (e : Entry α ω ι)
+    (hi : (runOps S k m0 ops)[i]? = some e) (hp : ProtocolOK {} (runOps S k m0 ops) i) :
+    ∀ er, e.res = .err er → er = .rejected := by
+  intro er her
+  have h := specLoop_at _ _ _ (C07_fair_turns_and_progress S k hW m0 ops) i e hi hp
+  cases hop : e.op <;> simpa [c07Entry, hop, her] using h
+
+section readings
+variable {k : MKind} {n : Nat} {learning : Aid → Bool} {g : GSt} {e : Entry α ω ι} {o : Out ω ι}
+  {acts : List (Aid × α)}
+
+/-- all-step: after a non-final step exactly the learning agents not yet reported done are reported -/
+theorem c07_allStep_reports (h : c07Entry .allStep n learning g e = true) (hop : e.op = .step acts)
+    (ho : e.res = .stepOk o) (hnf : o.allDone = false) :
+    ∀ a, a ∈ keys o.dones ↔ (a < n ∧ learning a = true ∧ a ∉ g.R) := by
+  simp only [c07Entry, hop, ho, hnf, Bool.false_or, Bool.and_eq_true, sameSet, List.all_eq_true,
+    decide_eq_true_eq] at h
+  intro a
+  constructor
+  · intro ha
+    have := h.1.1 a ha
+    simp only [List.mem_filter, List.mem_range, decide_eq_true_eq] at this
+    exact ⟨this.1.1, this.1.2, this.2⟩
+  · intro ha
+    apply h.1.2 a
+    simp only [List.mem_filter, List.mem_range, decide_eq_true_eq]
+    exact ⟨⟨ha.1, ha.2.1⟩, ha.2.2⟩
+
+/-- turn-based: a non-final output consists of the agents that finish now, in cyclic listing
+order after the previous turn holder, followed by exactly one agent that is not done — the
+first one in that order that is neither already reported nor finishing now. -/
+theorem c07_turnBased_one_live (h : c07Entry .turnBased n learning g e = true) (hop : e.op = .step acts)
+    (ho : e.res = .stepOk o) (hnf : o.allDone = false) :
+    turnExpect ((List.range n).filter learning) g e.ghost.simDone = some o.dones := by
+  simp only [c07Entry, hop, ho, hnf, Bool.false_or, Bool.and_eq_true, beq_iff_eq] at h
+  exact h.1
+
+/-- what `turnExpect` pins down -/
+theorem turnExpect_shape {learners : List Aid} {g : GSt} {simDone : List Bool} {d : List (Aid × Bool)}
+    (h : turnExpect learners g simDone = some d) :
+    ∃ pre live post, rotAfter learners g.holder = pre ++ live :: post ∧
+      (∀ b ∈ pre, b ∈ g.R ∨ simDone.getD b false = true) ∧
+      live ∉ g.R ∧ simDone.getD live false = false ∧
+      d = ((pre.filter (fun a => decide (a ∉ g.R))).map fun a => (a, true)) ++ [(live, false)] := by
+  unfold turnExpect at h
+  simp only [] at h
+  split at h
+  · cases h
+  · rename_i live post hdw
+    simp only [Option.some.injEq] at h
+    refine ⟨(rotAfter learners g.holder).takeWhile (fun a => decide (a ∈ g.R) || simDone.getD a false),
+      live, post, ?_, ?_, ?_, ?_, h.symm⟩
+    · rw [← hdw, List.takeWhile_append_dropWhile]
+    · intro b hb
+      have hall := List.all_takeWhile (l := rotAfter learners g.holder)
+        (p := fun a => decide (a ∈ g.R) || simDone.getD a false)
+      have := List.all_eq_true.mp hall b hb
+      simpa using this
+    · have := List.head_dropWhile_not (fun a => decide (a ∈ g.R) || simDone.getD a false)
+        (l := rotAfter learners g.holder) (by rw [hdw]; simp)
+      simp only [hdw, List.head_cons, Bool.or_eq_false_iff, decide_eq_false_iff_not] at this
+      exact this.1
+    · have := List.head_dropWhile_not (fun a => decide (a ∈ g.R) || simDone.getD a false)
+        (l := rotAfter learners g.holder) (by rw [hdw]; simp)
+      simp only [hdw, List.head_cons, Bool.or_eq_false_iff, decide_eq_false_iff_not] at this
+      exact this.2
+
+/-- dynamic: a non-final output reports exactly the nominated agents minus those already done -/
+theorem c07_dynamic_reports (h : c07Entry .dynamic n learning g e = true) (hop : e.op = .step acts)
+    (ho : e.res = .stepOk o) (hnf : o.allDone = false) :
+    ∀ a, a ∈ keys o.dones ↔ (a ∈ e.ghost.nominated ∧ a ∉ g.R) := by
+  simp only [c07Entry, hop, ho, hnf, Bool.false_or, Bool.and_eq_true, sameSet, List.all_eq_true,
+    decide_eq_true_eq] at h
+  intro a
+  constructor
+  · intro ha; simpa using h.1.1 a ha
+  · intro ha; exact h.1.2 a (by simpa using ha)
+
+/-- whenever `__all__` is false some reported agent is not done (for the dynamic-order manager:
+provided the simulation honoured its documented duty to nominate a live agent) -/
+theorem c07_progress (h : c07Entry k n learning g e = true) (hop : e.op = .step acts)
+    (ho : e.res = .stepOk o) (hnf : o.allDone = false)
+    (hdyn : k = .dynamic → nominatesLive g e.ghost = true) :
+    ∃ p ∈ o.dones, p.2 = false := by
+  simp only [c07Entry, hop, ho, hnf, Bool.false_or, Bool.and_eq_true, Bool.or_eq_true,
+    List.any_eq_true, Bool.not_eq_true', beq_iff_eq] at h
+  rcases h.2 with h2 | ⟨hk, hnl⟩
+  · exact h2
+  · rw [hdyn hk] at hnl; cases hnl
+
+end readings
+
+/-- the judge is sound on the scripted family -/
+theorem C07_stub (sc : Script) (k : MKind) (m0 : MState StubSt) (ops : List (Op Int))
+    (hl : k = .turnBased → ∃ a < sc.n, sc.learning.getD a false = true)
+    (hd : k = .dynamic → ScriptWF sc) :
+    specC07 k sc.n (stubSim sc).learning (runOps (stubSim sc) k m0 ops) = true :=
+  C07_fair_turns_and_progress (stubSim sc) k (stub_WF sc k hl hd) m0 ops
+
+/-- non-vacuity: in the example history of C01 a turn passes over an agent that finished
+"before its turn" and a simultaneous double finish is reported together with the live agent -/
+example :
+    let tr := runOps (stubSim exScript) .turnBased (mgrInit {} false []) exOps
+    (tr.any fun e => match e.res with | .stepOk o => decide (o.dones.length = 3) | _ => false) = true ∧
+    specC07 .turnBased 4 (stubSim exScript).learning tr = true := by
+  decide
+
+end Abmarl
